@@ -53,12 +53,32 @@ CHECKS = {
          "Every byte string over a 17-symbol alphabet up to a stated length plus semicolons inserted at every byte offset of a program corpus; join/round-trip, piece count, piece-in-isolation = statement-in-context and Parse correspondence are checked on every one.",
          "reference tokenizer for the independent semicolon count; corpus programs chosen to contain every token kind"),
 }
+# additions since the first version (families added after the seeded-change rounds); appended to the descriptions
+ADDED = {
+ "C01": " Also: wide families (every operator chain / list / nest with k = 1..129 operands, one-hot variants), comparisons between string-valued shapes, a termination sweep over nesting-wrapper pairs.",
+ "C02": " Also: a deep-and-narrow sweep, wide families (k columns / terms / keys / operators), every spelling of sort terms and two-keyword operators, programs with coinciding names.",
+ "C03": " Also: joins with k conditions, sequences of k joins, right-hand sides nested k deep, coinciding names, named results read again.",
+ "C04": " Also: skeletons in CTE position and as a join's right-hand side, after / before k other literals or names, contents from the compiler's own vocabulary, let-mediated uses, pairs of name spellings; the reference must carry the content exactly as often as the program uses it.",
+ "C05": " Also: wide families, join programs, binding use sites, generated-looking user names (one known finding).",
+ "C06": " Also: list-element and parenthesised-condition sites, wide let chains / parameter maps, case-variant names.",
+ "C07": " Also: scale programs, coinciding-name programs, keyword-like names in any case.",
+ "C08": " Also: scale programs, long string bodies with one special byte.",
+ "C09": " Also: boundary literals, unusual runes in 26 lexical contexts, every byte and every rune after a backslash, float literals with every ordinary exponent, long string bodies, runs of error tokens, sequences of tricky lexemes.",
+ "C10": " Also: four tree-independent span laws (token boundaries, one-token fields, statement extent, operators tile the pipeline).",
+ "C11": " Also: re-entrant walks at every node; scale programs; runs on one worker.",
+ "C12": " Also: odd parameter snippets, odd tokens in diagnostics, implicit-name layouts, 27 nesting wrappers x 17 innermost operands.",
+ "C13": " Also: reassigned output names, idiom wrappers, references to later bindings, large arities, hexadecimal row counts.",
+ "C14": " Also: all schedules with at most 1 (2) departures from the default; all ordered pairs of calls over the grammar corpus; repeat determinism; goroutines started by the code under test are run as controlled threads (go, buffered channels, close, select-default, WaitGroup).",
+ "C15": " Also: padded corpus, many-error sources, statement order and removed separators; a statement that parses alone must be reported even when others fail.",
+ "C16": " Also: bulk scripts, long lines, padding before a let, every wide family as a session.",
+}
 NOT_APPLICABLE = {}
 
 def main():
     checks = []
     for pid in sorted(CHECKS):
         cat, tech, ref, text, note = CHECKS[pid]
+        text += ADDED.get(pid, "")
         checks.append({
             "property_id": pid,
             "quick_cmd": f"./check {pid} quick",
